@@ -123,23 +123,30 @@ func (s *LinkedLog) Read(offset uint64) ([]OffsetAndSizeAndSlot, indexes.OffsetA
 	if n <= 0 {
 		return nil, indexes.OffsetAndSize{}, errors.New("invalid compacted indexes length")
 	}
-	return s.ReadWithSize(offset, compactedIndexesLen)
+	// ReadWithSize expects the size of the whole record, length prefix included.
+	return s.ReadWithSize(offset, uint64(n)+compactedIndexesLen)
 }
 
-func sizeOfUvarint(n uint64) int {
-	return binary.PutUvarint(make([]byte, binary.MaxVarintLen64), n)
-}
-
+// ReadWithSize reads the record of `size` bytes (length prefix + compressed indexes + pointer to the
+// previous record) stored at the given offset.
 func (s *LinkedLog) ReadWithSize(offset uint64, size uint64) ([]OffsetAndSizeAndSlot, indexes.OffsetAndSize, error) {
 	if size > 256*mib {
 		return nil, indexes.OffsetAndSize{}, fmt.Errorf("compacted indexes length too large: %d", size)
 	}
-	// debugln("compactedIndexesLen:", compactedIndexesLen)
-	// Read the compressed indexes
-	data := make([]byte, size-uint64(sizeOfUvarint(size))) // The size bytes have already been read.
-	_, err := s.file.ReadAt(data, int64(offset)+int64(sizeOfUvarint(size)))
+	record := make([]byte, size)
+	_, err := s.file.ReadAt(record, int64(offset))
 	if err != nil {
 		return nil, indexes.OffsetAndSize{}, err
+	}
+	// The width of the length prefix depends on the payload length it encodes, not on the record
+	// size (the two differ by the prefix itself), so decode it instead of recomputing it.
+	payloadLen, prefixLen := binary.Uvarint(record)
+	if prefixLen <= 0 || uint64(prefixLen)+payloadLen != size {
+		return nil, indexes.OffsetAndSize{}, fmt.Errorf("invalid record at offset %d: length prefix does not match record size %d", offset, size)
+	}
+	data := record[prefixLen:]
+	if len(data) < 9 {
+		return nil, indexes.OffsetAndSize{}, fmt.Errorf("invalid record at offset %d: too short (%d bytes)", offset, len(data))
 	}
 	// debugln_(func() []any { return []any{"data:", bin.FormatByteSlice(data)} })
 	// the indexesBytes are up until the last 8 bytes, which are the `next` offset.
